@@ -1,5 +1,7 @@
 mod util;
 mod p_c13;
+mod p_c21;
+mod p_c20;
 mod p_c10;
 mod p_c05;
 mod p_c27;
@@ -30,6 +32,8 @@ fn main() {
     util::silence_panics();
     match a[1].as_str() {
         "c13" => p_c13::run(&o),
+        "c21" => p_c21::run(&o),
+        "c20" => p_c20::run(&o),
         "c10" => p_c10::run(&o),
         "c05" => p_c05::run(&o),
         "c27" => p_c27::run(&o),
